@@ -82,7 +82,17 @@ class Persistence:
             """Save data and sleep until next save."""
             with contextlib.suppress(asyncio.CancelledError):
                 while True:
-                    await self.save()
+                    # The file operations of a save run in worker threads and
+                    # cannot be recalled. When cancelled, let the save that is
+                    # in flight finish, so that it cannot overwrite a later save.
+                    save = asyncio.ensure_future(self.save())
+                    try:
+                        await asyncio.shield(save)
+                    except asyncio.CancelledError:
+                        await asyncio.wait([save])
+                        if not save.cancelled():
+                            save.exception()
+                        raise
                     await asyncio.sleep(SAVE_INTERVAL)
 
         task = asyncio.create_task(save_on_schedule())
